@@ -9,6 +9,7 @@ entries take the same values under the n+1 hard probe predictors h = 0, e_1..e_n
 from __future__ import annotations
 
 import numpy as np
+from hypothesis import strategies as st
 
 from vf import momcommon as MC
 from vf.momcommon import need
@@ -103,6 +104,8 @@ def check_parity(case):
         tags.append("no_event")
     tags.append(case["moment"])
     tags.append("bound:" + case["bound"]["kind"])
+    if case.get("preload"):
+        tags.append("reloaded_moment")
     return tags
 
 
